@@ -327,3 +327,57 @@ def is_admissible(spec):
 
 def clone(spec):
     return copy.deepcopy(spec)
+
+
+# ---------------------------------------------------------------- the size ladder
+LADDER = [9, 17, 33, 65, 129, 257, 513, 1025]
+
+
+def ladder_case(n, kind, window, variant=0):
+    """A flat scheduler of n members, just above a power of two (slice sizes, caches of small
+    integers, recursion limits ... sit at such thresholds).  kind: 'plain' (all succeed),
+    'critical' (member 0 is critical and raises at t=1), 'timeout' (the top has timeout 1.5),
+    'forever' (a fifth of the members are never-ending forever jobs).  Deterministic."""
+    state = [n * 31 + variant * 7 + len(kind)]
+
+    def lcg():
+        state[0] = (state[0] * 1103515245 + 12345) % (2 ** 31)
+        return state[0] >> 8
+    members = []
+    edges = []
+    for j in range(n):
+        forever = kind == 'forever' and j % 5 == 4
+        job = dict(kind='job', id=None, cls='abstract', d=(lcg() % 3) + (0 if j else 1), k=lcg() % 2,
+                   outcome='return', critical=False, forever=forever, c=lcg() % 2,
+                   sd=lcg() % 2, hkey=lcg() % 16, tkey=lcg() % 4)
+        if forever:
+            # under a window fewer never-ending jobs than slots (premise of C03)
+            nevers = sum(1 for m in members if m['d'] == 'never')
+            job['d'] = 'never' if (not window or nevers < window - 1) else 6
+        if kind == 'critical' and j == 0:
+            job.update(d=1, k=0, outcome='raise', critical=True)
+        elif kind in ('critical', 'timeout') and j % 3 == 1:
+            job['d'] = 3            # still running / queued when the run is cut short
+        if j and not forever and lcg() % 2 and kind != 'critical':
+            i = lcg() % j
+            if not members[i]['forever']:
+                edges.append([i, j])
+        members.append(job)
+    sched = dict(kind='sched', id=None, cls='nestable' if variant % 2 else 'pure',
+                 window=window, timeout=1.5 if kind == 'timeout' else None, sdt=1,
+                 critical=False, forever=False, verbose=False, hkey=0, tkey=0,
+                 members=members, edges=edges,
+                 order=sorted(range(n), key=lambda i: (i * 7919 + variant) % 1009),
+                 build='ctor', wild=False, entry='run')
+    return assign_ids(sched)
+
+
+def ladder_sweep(kinds, windows=(None, 3, 24), sizes=LADDER):
+    """[(name, nchunks, chunk_fn)] entry for a property module's sweeps()"""
+    combos = [(n, kind, w) for n in sizes for kind in kinds for w in windows]
+
+    def chunk(k):
+        n, kind, w = combos[k]
+        yield ladder_case(n, kind, w, variant=k)
+    return ('size ladder %s x %s x windows %s' % (list(sizes), list(kinds), list(windows)),
+            len(combos), chunk)
